@@ -50,6 +50,9 @@ struct ForeignBlock {
     nodes: Vec<Node>,
     next_node: AtomicU32,
     stale: AtomicU32,
+    /// a static / uncounted object of the foreign module: handles carry `drop_fn = NULL` (nothing
+    /// to release, as the generated C helpers also allow); the object is never destroyed
+    no_drop: bool,
 }
 
 #[repr(C)]
@@ -192,8 +195,10 @@ impl State {
         }
     }
     fn new_foreign(&self, id: u32) -> ArcView {
-        let per_handle = id % 2 == 1;
+        let per_handle = id % 3 == 1;
+        let no_drop = id % 3 == 2;
         let mut b = Box::new(ForeignBlock {
+            no_drop,
             payload: std::mem::ManuallyDrop::new(mk_payload(self, id)),
             count: AtomicI64::new(1),
             clone_calls: AtomicU32::new(0),
@@ -211,7 +216,7 @@ impl State {
             b.nodes = nodes;
             ArcView { instance: &b.nodes[0] as *const Node as *const c_void, clone_fn: Some(foreign_clone_ph), drop_fn: Some(foreign_drop_ph) }
         } else {
-            ArcView { instance: bp as *const c_void, clone_fn: Some(foreign_clone), drop_fn: Some(foreign_drop) }
+            ArcView { instance: bp as *const c_void, clone_fn: Some(foreign_clone), drop_fn: if no_drop { None } else { Some(foreign_drop) } }
         };
         self.allocs.lock().unwrap().insert(id, AllocRec { kind: AllocKind::Foreign(b), model: 1 });
         view
@@ -543,6 +548,11 @@ fn check_invariants(st: &State, when: &str) -> VResult {
                 let sc = w.strong_count() as i64;
                 vcheck!(sc == a.model, "arc.count_mismatch", "std", "{}: allocation {} strong_count={} but {} live handle(s) in the model", when, id, sc, a.model);
             }
+            AllocKind::Foreign(b) if b.no_drop => {
+                vcheck!(b.drop_calls.load(Ordering::SeqCst) == 0, "arc.foreign_books", "foreign", "{}: the foreign module's drop function was called for its static object {} whose handles carry no drop function", when, id);
+                vcheck!(drops == 0, "arc.payload_drop", "payload", "{}: the foreign module's static object {} was destroyed", when, id);
+                continue;
+            }
             AllocKind::Foreign(b) => {
                 let c = b.count.load(Ordering::SeqCst);
                 vcheck!(b.underflow.load(Ordering::SeqCst) == 0, "arc.foreign_books", "foreign", "{}: foreign drop_fn called on allocation {} with no handle left", when, id);
@@ -837,6 +847,10 @@ fn exec_free(plan: &Plan, ctx: &mut RunCtx, st: &mut State, threads: usize) -> V
         match &a.kind {
             AllocKind::Std(w) => {
                 vcheck!(w.strong_count() == 0, "arc.count_mismatch", "std", "free mode: allocation {} still has strong_count={} after all handles were released", id, w.strong_count());
+            }
+            AllocKind::Foreign(b) if b.no_drop => {
+                vcheck!(b.drop_calls.load(Ordering::SeqCst) == 0 && drops == 0, "arc.foreign_books", "foreign", "free mode: the foreign module's static object {} was released or destroyed", id);
+                continue;
             }
             AllocKind::Foreign(b) => {
                 let c = b.count.load(Ordering::SeqCst);
